@@ -3,6 +3,7 @@
 * This file is part of BitSerializer library, licensed under the MIT license.  *
 *******************************************************************************/
 #include "msgpack_readers.h"
+#include <algorithm>
 #include <cstring>
 #include "bitserializer/conversion_detail/memory_utils.h"
 
@@ -1255,7 +1256,8 @@ namespace BitSerializer::MsgPack::Detail
 			}
 
 			mBuffer.clear();
-			mBuffer.reserve(remainingSize);
+			// The declared size is not trusted (up to 4 GB can be declared in a few bytes), the buffer grows with the data actually read
+			mBuffer.reserve(std::min(remainingSize, BitSerializer::Detail::CBinaryStreamReader::chunk_size * 16));
 			while (remainingSize != 0)
 			{
 				if (const std::string_view chunk = mBinaryStreamReader.ReadByChunks(remainingSize); !chunk.empty())
